@@ -100,9 +100,11 @@ CLAIMS = {
         'own schema/regex/enum/JSON/number objects, and the six read operations called concurrently on shared schema objects; every '
         'result is compared with the sequential result and every race report is a violation. Supporting Coq theorems: ErrOnce runs '
         'its function once and all callers get that result under any arrival order; a pool site that returns the buffer storage is '
-        'overwritten under an interleaving (witness in the thread model); all pool sites of the current tree copy (regenerated table).',
+        'overwritten under an interleaving (witness in the thread model); all pool sites of the current tree copy (regenerated table); '
+        'and for EVERY schedule and every choice of buffers by Get the thread model keeps exclusive ownership (no buffer held twice or '
+        'pooled while held), so a call that returns a copy returns its own output (C11_exclusive_ownership, C11_copy_calls_sequential).',
    note='A Gallina model cannot exhibit a data race on real memory; races are only seen under the schedules the detector happens to run. '
-        'The ownership invariant of the thread model for all schedules is not proved yet (DESIGN).',
+        'The thread model takes Get, Write, evaluating the result and Put as atomic steps and sync.Once as atomic (their contracts).',
    technique='race detector + sequential-result comparison; Coq model-level theorems as support (technique family applies only to the logic part)',
    ref='section 9, C11'),
  'C09': dict(
@@ -122,13 +124,15 @@ CLAIMS = {
    category='proof',
    text='Coq theorems over the model of check_recusrion.go and of the example builder: for every project, table configuration and fuel, '
         'an "infinite recursion" verdict implies the root has no finite instance (infinite descent on the height of an instantiability '
-        'derivation); a root that requires itself through mandatory single-name links of any length is reported whenever the check '
-        'returns; the example builder terminates within an explicit fuel bound (each type expanded at most twice on a path) and the '
+        'derivation); a root that requires itself through mandatory single-name links of any length is reported; the checker '
+        'terminates within an explicit fuel bound (every followed reference adds a new name of the finite universe of the nested '
+        'tables to `visited`), never fails with a code, and more fuel never changes its verdict (C06_checker_decides) - so both '
+        'directions hold outright (C06_instantiable_accepted, C06_self_requiring_reported); the example builder terminates within an explicit fuel bound (each type expanded at most twice on a path) and the '
         'bytes it writes form an RFC 8259 value (Spec/JsonGrammar.v). Tie: model vs Check()/Example() on all graphs over root + 2 types '
         'with every edge kind, chains up to length 6 with one weakened link at every position, random graphs over up to 6 types, in '
         'both registration styles; an independent python oracle computes instantiability and mandatory chains.',
    note='Trusted: Coq kernel; model tied by correspondence (104 verdict, shape of the example); schema text printer and python oracle. '
-        'Partial: termination of the checker is not proved (fuel 4000 in the correspondence). Only value shortcuts are links. No axioms.',
+        'The correspondence runs the model with check_fuel + 4000. Only value shortcuts are links. No axioms.',
    technique='Coq proofs (infinite descent, induction on derivations, fuel bound) + model/implementation correspondence + graph oracle',
    ref='section 9, C06'),
  'C07': dict(
